@@ -413,7 +413,7 @@ def run_C06(tier, seed):
     laws = gen_laws(tier, rnd)
     # operations on objects with a HISTORY (converted in place, results of earlier operations): straight-line programs, of which
     # C06 judges the outcome clauses (kind / SI magnitude / error class); validity of live objects is C19's statement
-    progs = inplace_then_arith_programs(tier, rnd)
+    progs = inplace_then_arith_programs(tier, rnd) + copy_aliasing_programs(tier, rnd)
     for i in range(120 if tier == 'quick' else 2000):
         progs.append(exec_random_program(f'pq{i}', rnd, 7, extreme=False))
     # arithmetic the repository's own unit tests perform (recorded by a pytest plugin that lives in /verif), judged like every other event
@@ -464,6 +464,38 @@ def inplace_then_arith_programs(tier, rnd):
                 {'op': '+', 'a': {'slot': 1}, 'b': {'slot': 2}}, {'op': '+', 'a': {'slot': 2}, 'b': {'slot': 1}},
                 {'op': '-', 'a': {'slot': 1}, 'b': {'slot': 2}}, {'op': '/', 'a': {'slot': 1}, 'b': {'slot': 2}}, {'op': '/', 'a': {'slot': 2}, 'b': {'slot': 1}},
                 {'op': 'neg', 'a': {'slot': 1}}, {'op': 'abs', 'a': {'slot': 1}}, {'op': 'to', 'a': {'slot': 1}, 'unit': u1}]))
+    return P
+
+
+def copy_aliasing_programs(tier, rnd):
+    """`q.to(u)` WITHOUT inplace hands out a quantity of its own: whatever the caller later does to that copy (here: re-expressing it
+    IN PLACE in another unit) is none of q's business.  For every operand the copies in EVERY unit of its kind are taken and then
+    spoiled, so whichever unit an operator converts its operand to internally has been through a copy; then q is asked again for
+    each copy (must come back in the unit asked for) and used as the left / right operand of the operators."""
+    P = []
+    kinds = spectab.kinds()
+    pairs = [(a, b) for a in kinds for b in kinds]
+    if tier == 'quick':
+        pairs = [(a, b) for a, b in pairs if a == b] + rnd.sample([(a, b) for a, b in pairs if a != b], 60)
+    n = 0
+    for ka, kb in pairs:
+        n += 1
+        ua, ub = rnd.choice(spectab.units_of(ka)), rnd.choice(spectab.units_of(kb))
+        prog = [{'op': 'new', 'kind': ka, 'unit': ua, 'val': 3.0}, {'op': 'new', 'kind': kb, 'unit': ub, 'val': 1.25}]
+        nxt = 3
+        for slot, kind in ((1, ka), (2, kb)):
+            us = spectab.units_of(kind)
+            if len(us) < 2:
+                continue
+            for j, u in enumerate(us):
+                prog.append({'op': 'to', 'a': {'slot': slot}, 'unit': u})                                  # the copy lands in slot nxt ...
+                prog.append({'op': 'to_inplace', 'a': {'slot': nxt}, 'unit': us[(j + 1) % len(us)]})     # ... and is re-expressed in place
+                nxt += 1
+            prog.append({'op': 'to', 'a': {'slot': slot}, 'unit': us[0]}); nxt += 1                         # asked again: a quantity in the unit asked for
+        for op in '+-*/':
+            prog.append({'op': op, 'a': {'slot': 1}, 'b': {'slot': 2}})
+            prog.append({'op': op, 'a': {'slot': 2}, 'b': {'slot': 1}})
+        P.append(run_program(f'pc{n}', prog))
     return P
 
 
